@@ -48,15 +48,15 @@ type Op struct {
 }
 
 const (
-	FlagNoGCP  = 1 << iota // pick without the interceptor context
-	FlagStream             // go through the stream interceptor
-	FlagOdd                // environment-illegal report (fault)
-	FlagEmpty              // resolver update with an empty address list
-	FlagNilMsg             // nil request message
-	FlagChain              // caller's context derives from an earlier intercepted call's context
-	FlagRetry              // completed with an error, the call is attempted once more with the same context (gRPC's retries)
-	FlagRepick             // told to wait, the call is picked again (same context) once a newer picker exists, as gRPC does
-	FlagOverlap            // serial plans, completion followed by a connection report: the completion callback runs only Op.N scheduling decisions before the report starts (they overlap)
+	FlagNoGCP   = 1 << iota // pick without the interceptor context
+	FlagStream              // go through the stream interceptor
+	FlagOdd                 // environment-illegal report (fault)
+	FlagEmpty               // resolver update with an empty address list
+	FlagNilMsg              // nil request message
+	FlagChain               // caller's context derives from an earlier intercepted call's context
+	FlagRetry               // completed with an error, the call is attempted once more with the same context (gRPC's retries)
+	FlagRepick              // told to wait, the call is picked again (same context) once a newer picker exists, as gRPC does
+	FlagOverlap             // serial plans, completion followed by a connection report: the completion callback runs only Op.N scheduling decisions before the report starts (they overlap)
 )
 
 // Conn event selectors (Op.B for OpConn).
@@ -989,6 +989,40 @@ func Generate(r *rand.Rand, profile string, concurrent bool, av Avoid) *Plan {
 		frag = append(frag, Op{K: OpConn, A: -1, B: ConnProgress},
 			Op{K: OpPick, B: MBound, Keys: []int{all[r.IntN(len(all))]}}, Op{K: OpPick, B: MBound, Keys: []int{km}})
 		p.MassKeys = true
+		at := 1
+		ops := append([]Op{}, p.Ops[:at]...)
+		ops = append(ops, frag...)
+		p.Ops = append(ops, p.Ops[at:]...)
+	}
+	// Directed fragment (affinity x refresh x live SHUTDOWN): a key is unbound
+	// (through a stand-in) while its channel is out of the pool - being refreshed,
+	// old connection shut down; the replacement then takes over. The key stays
+	// unbound: calls that carry it go to the least loaded channel.
+	if (profile == "affinity" || profile == "refresh" || profile == "fallback") && !concurrent && !p.Cfg.RR && r.IntN(40) == 0 && !extremeWin && len(p.Ops) > 4 {
+		p.Cfg.Min, p.Cfg.Max, p.Cfg.Fallback = 2, 2, true
+		p.LiveShutdown = true
+		if p.Cfg.UMs == 0 || p.Cfg.UCalls == 0 || p.Cfg.UMs > 1000 {
+			p.Cfg.UMs, p.Cfg.UCalls = uint32(10*(1+r.IntN(5))), uint32(1+r.IntN(2))
+		}
+		if p.Cfg.WM != 0 && p.Cfg.WM < 8 {
+			p.Cfg.WM = 8
+		}
+		n := int(p.Cfg.UCalls)
+		k := r.IntN(nKeys)
+		frag := []Op{{K: OpConn, A: 0, B: ConnProgress}, {K: OpConn, A: 0, B: ConnProgress}, {K: OpConn, A: 1, B: ConnProgress}, {K: OpConn, A: 1, B: ConnProgress},
+			{K: OpPick, B: MBind, Keys: []int{0}}, {K: OpDone, A: -1, B: OutOK, Keys: []int{k}},
+			{K: OpPick, B: MBound, Keys: []int{k}}} // stays in flight on the key's channel
+		for c := 0; c < n; c++ {
+			frag = append(frag, Op{K: OpPick, B: MBound, Keys: []int{k}, D: 1, E: 1})
+		}
+		frag = append(frag, Op{K: OpAdvance, E: int(p.Cfg.UMs) + 2})
+		for c := 0; c < n; c++ {
+			frag = append(frag, Op{K: OpDone, A: -1, B: OutClientDE})
+		}
+		frag = append(frag, Op{K: OpConn, A: -3, B: ConnShutdown},
+			Op{K: OpPick, B: MUnbind, Keys: []int{k}}, Op{K: OpDone, A: -1, B: OutOK},
+			Op{K: OpConn, A: -1, B: ConnProgress}, Op{K: OpConn, A: -1, B: ConnProgress},
+			Op{K: OpPick, B: MBound, Keys: []int{k}}, Op{K: OpPick, B: MBound, Keys: []int{k}}, Op{K: OpPick, B: MPlain})
 		at := 1
 		ops := append([]Op{}, p.Ops[:at]...)
 		ops = append(ops, frag...)
